@@ -597,15 +597,26 @@ Fixpoint c02_set_word (ws : list Z) (k : nat) (x : Z) : list Z :=
   | w :: t, S k' => w :: c02_set_word t k' x
   end.
 
+(** a step: [0; i] = query, [1; k; x] = write word k *)
+Definition c02_parse_step (v : val) : option (Z + Z * Z) :=
+  match v with
+  | VL [VZ 0; VZ i] => Some (inl i)
+  | VL [VZ 1; VZ k; VZ x] => Some (inr (k, x))
+  | _ => None
+  end.
+
 Fixpoint c02_session_run (sel : list Z -> Z -> val) (ws : list Z) (steps : list val) : list val :=
   match steps with
   | [] => []
-  | VL [VZ 0; VZ i] :: t => sel ws i :: c02_session_run sel ws t
-  | VL [VZ 1; VZ k; VZ x] :: t =>
-      if (0 <=? k) && (k <? zlen ws) && word_okb x
-      then VZ 0 :: c02_session_run sel (c02_set_word ws (Z.to_nat k) x) t
-      else [VBad]
-  | _ :: _ => [VBad]
+  | st :: t =>
+      match c02_parse_step st with
+      | Some (inl i) => sel ws i :: c02_session_run sel ws t
+      | Some (inr (k, x)) =>
+          if (0 <=? k) && (k <? zlen ws) && word_okb x
+          then VZ 0 :: c02_session_run sel (c02_set_word ws (Z.to_nat k) x) t
+          else [VBad]
+      | None => [VBad]
+      end
   end.
 
 Definition c02_session_model_sel (ws : list Z) (i : Z) : val :=
